@@ -36,7 +36,7 @@ export -f run_one; export here bin work repo
 list=()
 for pid in $ids; do for pf in "$here"/fixtures/$pid/$pat.patch; do [ -f "$pf" ] && list+=("$pf $pid"); done; done
 [ ${#list[@]} -eq 0 ] && { echo "selfcheck: no fixtures for $id"; exit 0; }
-printf '%s\n' "${list[@]}" | xargs -P 6 -L 1 bash -c 'run_one $0 $1' > "$work/out.txt" 2>&1
+printf '%s\n' "${list[@]}" | xargs -P 2 -L 1 bash -c 'run_one $0 $1' > "$work/out.txt" 2>&1
 cat "$work/out.txt"
 grep -q 'SELFCHECK-FAIL' "$work/out.txt" && fail=1
 echo "selfcheck: $(grep -c 'selfcheck ok' "$work/out.txt") ok, $(grep -c SELFCHECK-FAIL "$work/out.txt") failed, $(grep -c SELFCHECK-STALE "$work/out.txt") stale of ${#list[@]} fixtures"
